@@ -204,7 +204,7 @@ PROPS = {
         "verus": ["conn"],
         "verus_thorough": [],
         "kani": ["c05"],
-        "witness": ["cconn"],
+        "witness": ["c05", "cconn"],
         "assumptions": [
             "write_http_response's contract (write_post: ser(resp, close) on Ok, a prefix on Err, refusal before any byte, counter in step) is proved on the real function in unit respwrite and used here through use_contract",
             "assumed contract: read_http_request never writes to the stream it reads from (kept(reader))",
@@ -250,12 +250,14 @@ PROPS = {
                       "fills without CRLFCRLF, Disconnected / Truncated on end of stream or read error with empty / non-empty buffer, otherwise "
                       "the parse result of exactly the bytes before the first CRLFCRLF -- the read index advances by exactly head+4 and everything "
                       "after stays readable, nothing is written; thm_partition_independent: two runs over prefixes of one stream agree.",
-        "level_note": "Head::try_read is assumed to be `read_head_bytes(buf)?` followed by a total parse that never yields HeadError::Truncated "
-                      "(both side conditions are checked syntactically on the working tree every run; read_head_bytes itself is proved). "
+        "level_note": "Head::try_read is proved on its real text in unit tryread (Truncated iff no CRLFCRLF and then the buffer is untouched; "
+                      "otherwise exactly head+4 bytes are consumed whatever the parse result; never Truncated / MissingRequestLine after that; "
+                      "the iterator chain `split(LF).map(trim_trailing_cr)` enters through a rule-S1 stand-in keyed to its exact tokens). The head "
+                      "unit uses try_read through that contract plus one assumption: the parse result is a function of the head bytes. "
                       "parse_header_line is under contract in unit `parse` (total, every unwrap unreachable, given the assumed meaning of its "
                       "regex matcher). Not covered: panic-freedom of parse_request_line (Url crate), the line splitting in try_read, panic "
                       "hooks. FixedBuf and the reader are assumed contracts.",
-        "verus": ["head", "parse"],
+        "verus": ["head", "parse", "tryread"],
         "verus_thorough": [],
         "kani": [],
         "witness": "c01",
@@ -416,7 +418,7 @@ PROPS = {
         "verus": ["framing", "conn", "body"],
         "verus_thorough": [],
         "kani": ["c03"],
-        "witness": "c03",
+        "witness": ["c03", "c05"],
         "assumptions": [
             "as C14 for the HeaderList lookups (str::eq_ignore_ascii_case uninterpreted, AsRef)",
             "the let-regions are identified by the header-name literal they contain; a restructured read_http_request gives UNDECIDED and the bounded stand-in decides",
@@ -474,8 +476,11 @@ PROPS = {
                       "token SP [^ \\t\\r\\n]+ SP [^ \\t\\r\\n]+ and token ':' OWS .* OWS, with the same number of capture groups.",
         "level_note": "The language-equivalence step is a decision procedure, not a Verus obligation; it discharges the assumed matcher contract "
                       "against the literal in the source (not against safe_regex's implementation, and not the capture-group boundaries). "
-                      "Not covered: target -> url::Url (path / query), order of fields and line splitting in try_read (iterator chain), bare LF.",
-        "verus": ["parse", "head"],
+                      "Head::try_read is proved on its real text in unit tryread: the fields are the field lines' parses in the order sent, one per line, "
+                      "a line outside the grammar rejects the head (never skipped, folded or repaired), the request line's errors come first; the "
+                      "line splitting itself (`split(LF).map(trim_trailing_cr)`) is a rule-S1 stand-in with the assumed meaning of slice::split "
+                      "(trim_trailing_cr is proved, its reference-literal pattern through an S1 stand-in). Not covered: target -> url::Url (path / query).",
+        "verus": ["parse", "head", "tryread"],
         "verus_thorough": [],
         "kani": ["c02"],
         "witness": "c02",
@@ -502,7 +507,7 @@ PROPS = {
 # are listed in its evidence as notes (they are another property's alarm, or an unproved supporting contract).
 UNIT_OWNER = {
     "time": "C16", "chunked": "C07", "headers": "C14", "copy": "C09", "body": "C09", "conn": "C05", "head": "C01",
-    "parse": "C02", "logset": "C19", "logwriter": "C19", "jsonl": "C17", "cookie": "C15", "timefmt": "C16", "framing": "C03", "respguard": "C06", "respwrite": "C06", "errresp": "C20",
+    "parse": "C02", "logset": "C19", "logwriter": "C19", "jsonl": "C17", "cookie": "C15", "timefmt": "C16", "tryread": "C02", "framing": "C03", "respguard": "C06", "respwrite": "C06", "errresp": "C20",
 }
 SCOPE = {
     # total request reading also needs the parsers to be panic-free
@@ -519,6 +524,9 @@ SCOPE = {
 # scenarios of a bounded stand-in shared by several properties: which failing inputs belong to which property
 WITNESS_SCOPE = {
     "cconn": {"C09": r"^upload ", "C08": r"^bodyfile ", "C05": r"^pipeline "},
+    # the API-level model-based stand-in: every disagreement belongs to C05; the ones in a body read (the body handed out,
+    # what is left for the next request) also to C03
+    "c05": {"C03": r"\((BV|BF\(\d+\))\)"},
 }
 
 
